@@ -275,10 +275,10 @@ META["C08"] = {
     "re-used parameter names, arithmetic promotion, comparison, and/or/not, conditionals, dict and "
     "tuple fields) plus 16 stream-level chains and the non-boolean Where refusal. The reflection "
     "code in util_types depends on typing internals that the engine does not model (DESIGN §5).",
-    "level_note": "Bounded stand-in; nothing counted as proved. CPython's typing module is the "
+    "level_note": "Bounded stand-in for the typing claim itself. Discharged deductively: the expression cases of type_transformer raise nothing but ValueError (safety obligations; see C10) — the type values they record come from typing reflection modelled as uninterpreted functions. CPython's typing module is the "
     "unmodelled external.",
-    "technique": "bounded contract check of the type-following contract on generated class models (labelled stand-in; typing reflection is outside the deductive engine)",
-    "p_keys": False,
+    "technique": "bounded contract check of the type-following contract on generated class models (labelled stand-in; typing reflection is outside the deductive engine); safety of the expression cases of type_transformer discharged with z3",
+    "p_keys": True,
     "explanation": "bounded only",
     "assumptions": ["class models and expressions bounded as stated"],
 }
@@ -301,16 +301,16 @@ META["C09"] = {
 }
 
 META["C10"] = {
-    "level": "exploration",
+    "level": "other",
     "level_text": "Bounded contract check on the real operators of an untyped stream: ~650 "
     "expressions (depth <= 2 enumerated over a name pool that includes ast-meaningful names, depth 3 "
     "sampled; dict literals with non-identifier keys; every designed refusal) x Select/SelectMany/"
     "Where x lambda supplied as source string and as AST, and every third one as a capture-free "
     "Python callable compiled from a generated source module: the emitted lambda must be "
     "structurally the given one, the only exceptions the designed ValueErrors. Thorough: ~10x more.",
-    "level_note": "Bounded stand-in, except check_ast (proved). Discharged deductively (visitor induction over every node class): check_ast raises ValueError iff some Constant in the tree holds a value outside the transportable types, and returns normally otherwise (the designed refusal 'non-transportable constant'). The totality-by-safety-obligations proof of DESIGN §4 C10 over "
+    "level_note": "Proved (safety: no KeyError / IndexError / TypeError / AttributeError, only ValueError refusals, result of the same node class): the expression cases of type_transformer — lookup_type, visit_UnaryOp, visit_BinOp, visit_BoolOp, visit_Compare, visit_IfExp, visit_Subscript (tuple index checked on both ends), visit_Name, visit_Constant, visit_Lambda — under the visitor hypothesis; and check_ast. Discharged deductively (visitor induction over every node class): check_ast raises ValueError iff some Constant in the tree holds a value outside the transportable types, and returns normally otherwise (the designed refusal 'non-transportable constant'). The totality-by-safety-obligations proof of DESIGN §4 C10 over "
     "type_transformer is not in this build.",
-    "technique": "bounded contract check (exhaustive to depth 2, sampled beyond) of the pass-through / explicit-refusal contract on the real operators (labelled stand-in); check_ast under contract, discharged with z3",
+    "technique": "bounded contract check (exhaustive to depth 2, sampled beyond) of the pass-through / explicit-refusal contract on the real operators (labelled stand-in for the pass-through clause); safety obligations of ten type_transformer expression cases and check_ast discharged with z3",
     "p_keys": True,
     "explanation": "bounded only",
     "assumptions": ["expression depth bounded; names from a fixed pool"],
